@@ -337,7 +337,8 @@ def chk_cli(inp):
     if exists:
         for t in targets:
             os.makedirs(os.path.dirname(os.path.join(out, t)), exist_ok=True)
-            open(os.path.join(out, t), "wb").write(SENTINEL + t.encode())
+            # an existing file is an existing file also when it is empty (touch / mktemp placeholder, truncated output)
+            open(os.path.join(out, t), "wb").write(b"" if inp.get("empty") else SENTINEL + t.encode())
     before = _listing(out)
     run()
     after = _listing(out)
@@ -384,12 +385,18 @@ def _cases(tier, seed):
                     yield ("cli", {"cmd": cmd, "exists": e, "no_warnings": w, "answer": a, "pathlib": pl})
             else:
                 yield ("cli", {"cmd": cmd, "exists": e, "no_warnings": w, "answer": a})
+        # existing but empty targets (seed C17-c): declined and confirmed
+        for a in ("n", "y") if tier == "quick" else ("n", "y", "", "Y"):
+            if cmd.startswith("writer_"):
+                yield ("cli", {"cmd": cmd, "exists": True, "no_warnings": False, "answer": a, "pathlib": a == "n", "empty": True})
+            else:
+                yield ("cli", {"cmd": cmd, "exists": True, "no_warnings": False, "answer": a, "empty": True})
 
 
 def bounded(tier, seed):
     return B.run(CHECKERS, _cases(tier, seed),
                  rule="19 commands / writers (evo_ape, evo_rpe, evo_traj, evo_res, evo_config generate with every output option; the "
-                      "four path-taking writers with str and pathlib.Path) x {all targets exist, none} x {--no_warnings on, off} x "
+                      "four path-taking writers with str and pathlib.Path) x {all targets exist (with content, or empty files), none} x {--no_warnings on, off} x "
                       "answers %s, run in-process on real files; bytes of all pre-existing files and the directory listing "
                       "compared" % (["y", "n", "", "Y", "yes"] if tier == "quick" else ["y", "n", "", "Y", "yes", " y", "y ", "ye"]),
                  bounds={"seed": seed})
